@@ -23,7 +23,7 @@ def register(claim, na):
           "from it, and 349 identifiers pinned from the original commit must be reproduced. Further histories: written out and loaded back with the "
           "stored identifiers kept; a task output that is a parameter of its own task; two user threads (Engine T: real threads, every schedule with <= 1 "
           "preemption at the traced events of core/objects.py) computing identifiers / sealing / instantiating configurations that share "
-          "sub-configurations - observations must equal the sequential ones. Exhaustive within the stated bounds.",
+          "sub-configurations - observations must equal the sequential ones. The 'marked own parameter' family is also compared with the identifiers the pinned commit gives (pins/marked.json). Exhaustive within the stated bounds.",
           G_NOTE, "DESIGN.md 2.1, 3/C01")
     claim("C02", "G", "exploration",
           "bounded-exhaustive enumeration of configuration graphs x every applicable signature-neutral edit at every node",
@@ -50,7 +50,7 @@ def register(claim, na):
           "run() and the task body's view (values, sharing, tags, pre/init/body order) compared with what was configured (after an earlier generation of "
           "the same directory with other Meta values / tags). Identifiers (full and raw) of every reloaded node and of a fresh configuration "
           "embedding the reloaded root are compared with the originals, also when the loader keeps the stored identifiers. NORMAL-mode route on "
-          "Engine W: a job submitted again with another Meta value after a failure - every launched process reads the values of the submission that launched it.",
+          "Engine W: a job submitted again with another Meta value after a failure - every launched process reads the values of the submission that launched it. Data files (DataPath): save/load and serialize/deserialize x one / two / shared files x fresh directory / saved again / source replaced / other object in the same directory - loaded content equals the configured one, source files untouched.",
           G_NOTE, "DESIGN.md 3/C12")
     claim("C13", "G", "exploration",
           "bounded-exhaustive enumeration of configuration graphs (sharing, cycles, pre/init tasks anywhere) x {instance(), fromParameters}",
@@ -121,7 +121,7 @@ def register(claim, na):
           "FIFO, JOBS-FIRST and LIFO default policies (so the restart happens at once, after the orphans finished, or before them), the job processes "
           "live on, the script is run again in a fresh simulated process and its continuation explored with up to one deviation; over both runs every "
           "successful body must have executed exactly once and never twice at a time, the second run must end all DONE without hang/exception, no "
-          "token file may remain and available == total.",
+          "token file may remain and available == total. A generated script left empty, truncated or non-executable by the kill is refused by the virtual Popen / interpreter as by the real ones.",
           W_NOTE + " SIGINT (handler -> experiment.stop()) is not explored.", "DESIGN.md 3/C11")
     claim("C16", "W", "model_checking",
           "exhaustive enumeration of run histories of one experiment name (plus schedules within the deviation bound and kill points) on the real scheduler, index read after every run",
@@ -129,7 +129,7 @@ def register(claim, na):
           "without waiting under <=1 deviation from three policies, a completed run followed by a run killed at every scheduling point and re-run, two "
           "processes entering the same experiment: after every run jobs/ must equal the run's plan with resolving links and no jobs.bak (normal end), "
           "or jobs + jobs.bak must still contain the last completed plan (abort/kill), and the real `orphans` command must list none of them. The lock "
-          "model follows POSIX record locks (per process; dropped when the process closes any descriptor of the file).",
+          "model follows POSIX record locks (per process and per open FILE - inode-keyed, a waiter keeps the unlinked file open; dropped when the process closes any descriptor of the file); three holders of one experiment (a waiter inside when the first process re-enters; three processes).",
           W_NOTE, "DESIGN.md 3/C16")
 
     claim("C10", "K", "fault_enumeration",
@@ -150,7 +150,7 @@ def register(claim, na):
           "(marker state incl. a re-launched job still carrying its failure marker x tag x membership in jobs / jobs.bak / none; thorough: three jobs) "
           "is built on disk and `jobs clean` (+-filter, +-perform) and `orphans` (+-clean) are run through the real click CLI; the set of directories "
           "that disappeared must equal the expected deletion set (nothing without --perform, never a job whose process is alive). A third tag carries "
-          "values and patterns with dots, digits and backslashes.",
+          "values and patterns with dots, digits and backslashes. `jobs clean --perform` also with a failed job launched again between the processing of any two jobs (every failed job x every moment): it must survive.",
           "Closed alphabets (2 tags x 3 values, 4 states, 9 commands). Mixed and/or chains without parentheses are not enumerated (no documented "
           "precedence). `jobs kill` is outside the statement.", "DESIGN.md 3/C19")
 
@@ -161,7 +161,7 @@ def register(claim, na):
           "every depth; by attribute assignment and by keyword: an accepted value must be deeply of the declared type and read back equal, a rejected "
           "one must leave the parameter unchanged; the same candidates as *default value* of the parameter of a fresh class. (b) Every task description within (N,k) with one required value removed at one node is "
           "submitted in a NORMAL-mode experiment running on the virtual scheduler: submit must raise with registry and unfinishedJobs unchanged "
-          "and nothing launched.",
+          "and nothing launched. The hole also in a configuration loaded from a parameter file (sealed by the loader, never validated).",
           "Closed value alphabet (one conforming value per shape); bool accepts everything by design; Union not covered.", "DESIGN.md 3/C15")
 
     claim("C20", "G+F", "exploration",
